@@ -392,6 +392,114 @@ theorem unlink_spec {r : Root} (hnd : NoDangling r) (hs : EdgesSym r) {cur : Id}
   · subst hr2
     exact (SameFrame.setNode ..).trans (SameFrame.foldl_modify ..)
 
+/-! ### 4b. `unsubscribe` (first step of `NodeHandle::dispose`, repair D19) -/
+
+theorem unsubscribe_dead {r : Root} {id : Id} (h : r.get? id = none) : unsubscribe r id = r := by
+  simp [unsubscribe, h]
+
+theorem unsubscribe_sameFrame (r : Root) (id : Id) : SameFrame r (unsubscribe r id) := by
+  unfold unsubscribe
+  split
+  · exact SameFrame.refl r
+  · exact (SameFrame.foldl_modify ..).trans (SameFrame.modify ..)
+
+/-- what `unsubscribe` does, without any assumption on the state -/
+theorem unsubscribe_get?_raw {r : Root} {id : Id} {this : Node} (h : r.get? id = some this) (j : Id) :
+    (unsubscribe r id).get? j =
+      (r.get? j).map fun n =>
+        { n with dependents := if j ∈ this.dependencies then n.dependents.filter (· != id) else n.dependents,
+                 dependencies := if j = id then [] else n.dependencies } := by
+  simp only [unsubscribe, h]
+  rw [Root.get?_modify]
+  by_cases hj : j = id
+  · subst hj
+    rw [if_pos rfl, Root.get?_foldl_modify_idem (by intro n; simp)]
+    by_cases h2 : j ∈ this.dependencies <;> cases r.get? j <;> simp [h2]
+  · rw [if_neg hj, Root.get?_foldl_modify_idem (by intro n; simp)]
+    by_cases h2 : j ∈ this.dependencies <;> cases r.get? j <;> simp [hj, h2]
+
+/-- `unsubscribe` changes nothing but edge lists: every node is mapped by a function that keeps all
+other fields (no assumption on the state) -/
+theorem unsubscribe_get?_fields (r : Root) (id j : Id) :
+    ∃ g : Node → Node, (unsubscribe r id).get? j = (r.get? j).map g ∧
+      ∀ m, (g m).value = m.value ∧ (g m).callback = m.callback ∧ (g m).children = m.children ∧
+        (g m).parent = m.parent ∧ (g m).cleanups = m.cleanups ∧ (g m).context = m.context ∧
+        (g m).dirty = m.dirty ∧ (g m).mark = m.mark ∧
+        (∀ d ∈ (g m).dependents, d ∈ m.dependents) ∧ (∀ d ∈ (g m).dependencies, d ∈ m.dependencies) := by
+  cases h : r.get? id with
+  | none =>
+    rw [unsubscribe_dead h]
+    exact ⟨fun m => m, by simp, fun m => ⟨rfl, rfl, rfl, rfl, rfl, rfl, rfl, rfl, fun _ h => h, fun _ h => h⟩⟩
+  | some this =>
+    refine ⟨_, unsubscribe_get?_raw h j, fun m => ⟨rfl, rfl, rfl, rfl, rfl, rfl, rfl, rfl, ?_, ?_⟩⟩
+    · intro d hd; simp only at hd; split at hd
+      · exact (List.mem_filter.1 hd).1
+      · exact hd
+    · intro d hd; simp only at hd; split at hd
+      · cases hd
+      · exact hd
+
+theorem unsubscribe_alive (r : Root) (id j : Id) : (unsubscribe r id).alive j = r.alive j := by
+  obtain ⟨g, hg, _⟩ := unsubscribe_get?_fields r id j
+  simp [Root.alive, hg]
+
+/-- `unsubscribe` has the same effect as the unlink phase of `run_node_update`: `id` is erased from
+every `dependents` list and `id` itself gets `dependencies := []`; nothing else changes and the
+invariants are kept -/
+theorem unsubscribe_spec {r : Root} (hnd : NoDangling r) (hs : EdgesSym r) (id : Id) :
+    (∀ j, (unsubscribe r id).get? j = (r.get? j).map (unlinked id j)) ∧
+    (∀ j m, (unsubscribe r id).get? j = some m → id ∉ m.dependents) ∧
+    NoDangling (unsubscribe r id) ∧ EdgesSym (unsubscribe r id) ∧ SameFrame r (unsubscribe r id) := by
+  have hget : ∀ j, (unsubscribe r id).get? j = (r.get? j).map (unlinked id j) := by
+    intro j
+    cases h : r.get? id with
+    | none =>
+      rw [unsubscribe_dead h]
+      cases hn : r.get? j with
+      | none => rfl
+      | some m =>
+        have hj : j ≠ id := by intro e; subst e; rw [h] at hn; cases hn
+        obtain ⟨h1, _⟩ := hnd.not_mem_of_dead h hn
+        simp [unlinked, hj, filter_ne_of_not_mem h1]
+    | some n =>
+      rw [unsubscribe_get?_raw h]
+      cases hjn : r.get? j with
+      | none => rfl
+      | some m =>
+        have e : j ∉ n.dependencies → m.dependents.filter (· != id) = m.dependents := by
+          intro hj; apply filter_ne_of_not_mem
+          rw [← List.count_eq_zero, hs j id m n hjn h, List.count_eq_zero]; exact hj
+        by_cases hm : j ∈ n.dependencies
+        · simp [hm, unlinked]
+        · simp [hm, unlinked, e hm]
+  have hsf := unsubscribe_sameFrame r id
+  generalize unsubscribe r id = r2 at hget hsf ⊢
+  have key : ∀ j m', r2.get? j = some m' → ∃ m, r.get? j = some m ∧ m' = unlinked id j m := by
+    intro j m' h
+    rw [hget, Option.map_eq_some_iff] at h
+    obtain ⟨m, hm, e⟩ := h; exact ⟨m, hm, e.symm⟩
+  have alive' : ∀ d, r2.alive d = r.alive d := by
+    intro d; simp [Root.alive, hget]
+  refine ⟨hget, ?_, ?_, ?_, hsf⟩
+  · intro j m' h
+    obtain ⟨m, _, rfl⟩ := key j m' h
+    simp [unlinked]
+  · intro j m' h
+    obtain ⟨m, hm, rfl⟩ := key j m' h
+    obtain ⟨h1, h2⟩ := hnd j m hm
+    constructor <;> intro d hd <;> rw [alive']
+    · simp [unlinked] at hd; exact h1 d hd.1
+    · by_cases hj : j = id
+      · simp [unlinked, hj] at hd
+      · simp [unlinked, hj] at hd; exact h2 d hd
+  · intro a b na' nb' ha hb
+    obtain ⟨na, hna, rfl⟩ := key a na' ha
+    obtain ⟨nb, hnb, rfl⟩ := key b nb' hb
+    have := hs a b na nb hna hnb
+    by_cases hb : b = id
+    · simp [unlinked, hb, count_filter_ne]
+    · simp [unlinked, hb, this]
+
 /-! ### 5. `createDependencyLink` -/
 
 /-- the effect of `createDependencyLink r deps d` on node `j`, where `L = deps.filter r.alive`:
